@@ -32,8 +32,8 @@ def positions(n):
         if rg.valid_type(t):
             ps.append(t)
     # two-deep
-    for (_, f) in rg.slots()[:10]:
-        for (_, g) in [rg.slots()[0], rg.slots()[1], rg.slots()[5], rg.slots()[8]]:
+    for (_, f) in rg.slots()[:11]:
+        for (_, g) in [rg.slots()[0], rg.slots()[1], rg.slots()[5], rg.slots()[8], rg.slots()[9]]:
             t = f(g(x))
             if rg.valid_type(t):
                 ps.append(t)
@@ -64,15 +64,10 @@ def build(types, defined=()):
         if plain in text:
             text = text.replace(plain, "pub struct %s {\n    pub a: i32,\n    pub via: OnlyVia%s,\n}" % (n, n), 1)
             text += rg.struct_src("OnlyVia" + n, [("deep", "i32")])
-    # the same payload types once more, this time carried by an annotated local whose initialiser is a call on some other path
-    # (`let at: DateTime<Utc> = Utc::now();`): the annotation is the payload's type, whatever produces the value
-    for (i, t) in types:
-        text += "pub fn evl_%d(app: AppHandle) {\n    let y: %s = %s;\n    app.emit(\"l%d\", y).unwrap();\n}\n\n" % (i, rg.rust(t), LET_INITS[i % len(LET_INITS)], i)
     return [(files[0][0], text + OTHERS)]
 
 
-LET_INITS = ["Default::default()", "Utc::now()", "Vec::new()", "std::env::temp_dir()", "HashMap::with_capacity(4)", "store::load(&app)", "Builder::new().build()",
-             "Uuid::new_v4()", "make()", "Decimal::from(3)"]
+LET_INITS = c05.LET_INITS
 
 
 def _pshow(p):
